@@ -11,11 +11,11 @@ GEN = ["Handlers"]
 VO = ["Properties/C01.vo", "Properties/C03.vo", "Extract/D_Client.vo"]
 MODULE = "Properties.C01"
 THEOREMS = ["c01_failure_closes_fetch", "c01_failure_closes_store", "c01_failure_closes_misc", "c01_src_handlers", "c01_fresh_connection",
-            "c01_only_own_connection", "c01_noreply_never_reads", "c01_server_silent_iff", "c01_exact_store", "c01_exact_misc", "c01_exact_noreply"]
+            "c01_only_own_connection", "c01_noreply_never_reads", "c01_server_silent_iff", "c01_exact_store", "c01_exact_misc", "c01_exact_noreply", "c01_exact_fetch"]
 DRIVER = "D_Client"
 TECHNIQUE = ("Coq proof (partial): on the Client model every failing call leaves self.sock None for any exception class, fault, peer "
              "and recv behaviour; fresh connections start empty; noreply calls perform no recv; the specification server is silent "
-             "exactly for noreply commands; exact consumption of the reply proved for the line-per-command exchanges and checked "
+             "exactly for noreply commands; exact consumption of the reply proved for the line-per-command exchanges and for retrievals (VALUE blocks) and checked "
              "on the implementation with per-byte ownership tags over operations x fault plans x segmentations")
 LEVEL_TEXT = ("c01_failure_closes_*: for every configuration, peer, script and recv behaviour, an exception of ANY class escaping the "
               "socket phase of a call leaves self.sock = None (handler classes read from base.py on this run: c01_src_handlers); "
@@ -25,7 +25,9 @@ LEVEL_TEXT = ("c01_failure_closes_*: for every configuration, peer, script and r
               "c01_server_silent_iff: the specification server replies exactly when the command does not say noreply. "
               "c01_exact_store/misc/noreply: on a connected client with nothing pending and a fault-free transport, an exchange with any "
               "peer that answers one CRLF-terminated line per command consumes exactly those lines (nothing unread, nothing over-read). "
-              "PARTIAL: for retrievals and for calls that reconnect first, 'a returning call has consumed its reply to the last byte' "
+              "c01_exact_fetch: the same for a reply of VALUE blocks closed by END, any number of items and any data bytes: each block is "
+              "read by its announced length, nothing is left unread or over-read. "
+              "PARTIAL: for calls that reconnect first (and stats/gat variants), 'a returning call has consumed its reply to the last byte' "
               "(quiet_run of c03_sequences) is checked with ownership tags, not proved.")
 LEVEL_NOTE = ("Trusted: Coq kernel; the hand model's correspondence with base.py; tools/py2coq gen_handlers; the ownership ghost of "
               "harness/clientsim.py (each reply byte is tagged with the call whose command elicited it). No axioms.")
